@@ -325,6 +325,16 @@ package locate
 //@       bo.backoffTimes[staleCmdKind()] == old(bo.backoffTimes[staleCmdKind()]) + 1
 // Without a replica selector nothing counts attempts: a NotLeader answer is retried only after a region-scheduling
 // back-off, whether or not it carries a leader hint (with a selector the step is onNotLeader's, below).
+// Without a replica selector every retry that onRegionError grants has been paid for with a back-off of some kind (the
+// epoch-not-match case is decided inside RegionCache.OnRegionEpochNotMatch, which is not under contract).
+//@   at return assert paid: s.replicaSelector == nil && old(s.Stats) == nil && regionErr.EpochNotMatch == nil && shouldRetry ==>
+//@       bo.backoffTimes[regionSchedulingKind()] == old(bo.backoffTimes[regionSchedulingKind()]) + 1 ||
+//@       bo.backoffTimes[diskFullKind()] == old(bo.backoffTimes[diskFullKind()]) + 1 ||
+//@       bo.backoffTimes[tikvBusyKind()] == old(bo.backoffTimes[tikvBusyKind()]) + 1 ||
+//@       bo.backoffTimes[tiflashBusyKind()] == old(bo.backoffTimes[tiflashBusyKind()]) + 1 ||
+//@       bo.backoffTimes[staleCmdKind()] == old(bo.backoffTimes[staleCmdKind()]) + 1 ||
+//@       bo.backoffTimes[maxTsKind()] == old(bo.backoffTimes[maxTsKind()]) + 1 ||
+//@       bo.backoffTimes[notInitKind()] == old(bo.backoffTimes[notInitKind()]) + 1
 //@   ensures notleader: regionErr.UndeterminedResult == nil && regionErr.NotLeader != nil && s.replicaSelector == nil && old(s.Stats) == nil && shouldRetry ==>
 //@       bo.backoffTimes[regionSchedulingKind()] == old(bo.backoffTimes[regionSchedulingKind()]) + 1
 
